@@ -800,6 +800,17 @@ func c17WriterScript(k int) *hx.Script {
 			strs[i] = string(b)
 		}
 		v := hx.Val{Kind: "vstr", S: strs}
+		// the datasets are created in the first session (creation in a reopened session is
+		// refused for some superblock versions): in front of the first Close of the history
+		tail := []hx.Op(nil)
+		for i, op := range s.Ops {
+			if op.K == "close" {
+				tail = append(tail, s.Ops[i:]...)
+				s.Ops = s.Ops[:i:i]
+				break
+			}
+		}
+		defer func() { s.Ops = append(s.Ops, tail...) }()
 		s.Ops = append(s.Ops, hx.Op{K: "create_ds", Path: "/vroll", DT: "vstr", Dims: []uint64{uint64(n)}, Data: &v})
 		seqs := make([][]uint64, 90)
 		for i := range seqs {
@@ -836,6 +847,12 @@ func c17WriterScript(k int) *hx.Script {
 		}
 	}
 	return s
+}
+
+// C17WriterScriptJSON returns writer history k (debugging aid).
+func C17WriterScriptJSON(k int) []byte {
+	b, _ := json.Marshal(c17WriterScript(k))
+	return b
 }
 
 func c17WriteFaults(c *ev.Ctx, cs c17Case) {
@@ -890,10 +907,10 @@ func c17WriteFaults(c *ev.Ctx, cs c17Case) {
 			}
 		}
 		// quick tier: the first and the last 100 calls of the sequence (creation and the last
-		// session), thorough: all
+		// session; every write of the histories with heap-collection roll-overs), thorough: all
 		var ks []int
 		for k := 1; k <= n; k++ {
-			if c.Thorough() || n <= 200 || k <= 100 || k > n-100 {
+			if c.Thorough() || n <= 200 || k <= 100 || k > n-100 || (cs.seed%3 == 2 && fk.sys == "pwrite64") {
 				ks = append(ks, k)
 			}
 		}
